@@ -50,8 +50,20 @@ def scenarios(ctx):
 
 def run(ctx, replay):
     quick = ctx.quick()
+    rng = random.Random(ctx.seed * 991 + 141)
     if replay:
         rec = vlib.json.load(open(replay))
+        if rec.get("component") == "ttlmap":
+            tp = vlib.run_scenarios(ctx, "ttlmap", [rec["scenario"]], "replay")
+            res = vlib.validate_trace(ctx, "Trace_TTLMap", tp, "replay")
+            bad = [b for b in res["bad"] if b["clause"].startswith("C14.")]
+            for b in bad[:10]:
+                print("REPORT line=%s clause=%s" % (b["line"], b["clause"]))
+            if bad:
+                print("VIOLATION property=C14 replay=%s" % replay)
+                return 1
+            print("replay: no contract report")
+            return 0
         if rec.get("component") == "conn":
             ctx.pid = "C14"
             return C04.run(ctx, replay)
@@ -75,6 +87,31 @@ def run(ctx, replay):
             b["clause"] = "C14.Conn" + b["clause"][4:]
     vlib.collect(ctx, res, {s["id"]: s for s in cs}, "conn", C03.classify, ["C14."])
     ctx.traces += len(cs)
+    # the TTL map itself (reached through the tagged re-export): which entry is forgotten when the map is full
+    tc = lambda wrong: {"Keys": vlib.Raw('{"a", "b", "c"}'), "Caps": vlib.Raw("{0, 1, 2}"), "Ttls": vlib.Raw("{0, 1, 3}"),
+                        "Advances": vlib.Raw("{1, 2}"), "MaxOps": 6 if quick else 7, "WrongVictim": wrong}
+    inv = ["WithinCapacity", "GetReturnsLastSet", "EvictsNearestExpiry"]
+    vlib.mc(ctx, "MC_TTLMap", vlib.make_cfg(constants=tc(False), invariants=inv), "ttlmap")
+    vlib.mc(ctx, "MC_TTLMap", vlib.make_cfg(constants=dict(tc(True), MaxOps=5), invariants=inv), "ttlmap-mutant-any-victim",
+            expect="EvictsNearestExpiry")
+    ts = []
+    for i in range(60 if quick else 600):
+        cap = rng.choice([0, 1, 2, 3, 5])
+        keys = list("abcdefg")[:cap + rng.randint(1, 3)]
+        steps = []
+        for _ in range(80 if quick else 250):
+            x = rng.random()
+            if x < 0.45:
+                steps.append({"op": "set", "k": rng.choice(keys), "v": rng.randint(1, 9), "ttl": rng.choice([0, 1, 2, 3, 5, 10, 30])})
+            elif x < 0.8:
+                steps.append({"op": "get", "k": rng.choice(keys)})
+            else:
+                steps.append({"op": "adv", "d": rng.choice([1, 1, 2, 3, 10])})
+        ts.append({"id": "ttl-%d" % i, "cfg": {"cap": cap}, "steps": steps})
+    tp = vlib.run_scenarios(ctx, "ttlmap", ts, "c14-ttlmap")
+    res = vlib.validate_trace(ctx, "Trace_TTLMap", tp, "c14-ttlmap")
+    vlib.collect(ctx, res, {s["id"]: s for s in ts}, "ttlmap", C03.classify, ["C14."])
+    ctx.traces += len(ts)
     return vlib.finish(ctx, "model_checking",
                        "rate limiter: joint run of several sources and, on a fresh limiter, the solo run of every source with the "
                        "same times; each decision must equal the solo decision. connection limiter: admitted iff the own source "
